@@ -61,6 +61,9 @@ type DeclCfg struct {
 	NsDelims     []string
 	EnvDelims    []string
 	NoHelpNames  bool // avoid -h / --help even without HelpFlag
+	PDefault2    int  // % of scalar options with default tags that get two differing ones (the last wins)
+	PNoFlag      int  // % of structs that get a `no-flag` struct field whose tagged inner fields must NOT become options
+	PProgAttr    int  // % of options whose required/choice/hidden/default-mask marks are set on the flags.Option after scanning
 	PDupField    int  // % of options in nested groups that reuse the Go field name of an option of an enclosing group
 }
 
@@ -175,7 +178,7 @@ func (n *namer) genCmdBody(c *Cmd) {
 			if i == k-1 && rest {
 				a.T.W = WSlice
 				if r.Chance(cfg.PPosReq, 100) {
-					lo := r.Range(1, 3)
+					lo := r.Range(0, 3)
 					if r.Bool() {
 						a.Req = strconv.Itoa(lo)
 					} else {
@@ -247,6 +250,10 @@ func (n *namer) genGroupBody(g *Grp, c *Cmd, nest int) {
 		for i := r.Range(1, 2); i > 0; i-- {
 			g.Plain = append(g.Plain, &PlainField{Field: fmt.Sprintf("Plain%d", d.NewID()), Kind: r.Intn(len(plainTypes))})
 		}
+	}
+	if r.Chance(cfg.PNoFlag, 100) {
+		id := d.NewID()
+		g.NoFlag = append(g.NoFlag, &NoFlagField{Field: fmt.Sprintf("NF%d", id), Long: fmt.Sprintf("nf%03d", id), Short: 0})
 	}
 	k := r.Range(cfg.OptsMin, cfg.OptsMax)
 	for i := 0; i < k; i++ {
@@ -405,6 +412,9 @@ func (n *namer) genOpt(g *Grp, c *Cmd) *Opt {
 			if t.IsMulti() {
 				nv = r.Range(1, 3)
 			}
+			if !t.IsMulti() && r.Chance(cfg.PDefault2, 100) {
+				nv = 2
+			}
 			for i := 0; i < nv; i++ {
 				o.Defaults = append(o.Defaults, GenValueText(r, o))
 			}
@@ -432,6 +442,7 @@ func (n *namer) genOpt(g *Grp, c *Cmd) *Opt {
 		}
 	}
 	o.Required = r.Chance(cfg.PRequired, 100)
+	o.Prog = (o.Required || len(o.Choices) > 0 || o.Hidden || o.DefaultMask != "") && r.Chance(cfg.PProgAttr, 100)
 	if r.Chance(cfg.PIniName, 100) {
 		o.IniName = fmt.Sprintf("ini%03d", id)
 	}
